@@ -827,6 +827,10 @@ class TypesCodeGenerator:
 
         code_lines += self._generate_properties(class_name, properties, indent)
 
+        # If the class has no properties then add `pass`
+        if len(properties) == 0:
+            code_lines += [f"{indent}pass"]
+
         self._add_type_code(class_name, code_lines)
         if any(keyword.iskeyword(p.name) for p in properties):
             self._add_keyword_class(class_name)
